@@ -30,6 +30,8 @@ def main():
         for c, rc, lines in bad:
             for l in lines[:3]:
                 print("     ", l[:220])
+    if len(sys.argv) > 1:
+        return 0
     with open(f"{V}/refactors/RESULTS.md", "w") as f:
         f.write("# Behaviour-preserving refactorings vs. checks (quick tier; every check must stay silent)\n\n| refactoring | verdict | detail |\n|---|---|---|\n")
         for r, v, d in rows:
